@@ -1,0 +1,77 @@
+//go:build verif
+
+// Package verifhook provides tracing and scheduling hooks used by external
+// verification tooling. This is the implementation enabled by the "verif" build tag.
+//
+// Emit appends one JSON object per event to the file named by YARDL_VERIF_TRACE
+// (nothing happens if the variable is unset). Events carry a per-process sequence
+// number assigned under the same mutex that serialises the write, so the order of
+// lines is the order in which the hooks were passed.
+//
+// Gate(point), when YARDL_VERIF_GATE_DIR is set, creates "<dir>/<point>.<n>.arrived"
+// (n counts arrivals at that point, from 1) and blocks until "<dir>/<point>.<n>.go"
+// or "<dir>/<point>.pass" exists (at most 120 s).
+package verifhook
+
+import (
+	"encoding/json"
+	"fmt"
+	"os"
+	"path/filepath"
+	"sync"
+	"time"
+)
+
+var (
+	mu      sync.Mutex
+	seq     int
+	arrived = map[string]int{}
+)
+
+func Emit(event string, kv ...any) {
+	path := os.Getenv("YARDL_VERIF_TRACE")
+	if path == "" {
+		return
+	}
+	mu.Lock()
+	defer mu.Unlock()
+	seq++
+	rec := map[string]any{"seq": seq, "pid": os.Getpid(), "event": event}
+	for i := 0; i+1 < len(kv); i += 2 {
+		rec[fmt.Sprint(kv[i])] = kv[i+1]
+	}
+	b, err := json.Marshal(rec)
+	if err != nil {
+		return
+	}
+	f, err := os.OpenFile(path, os.O_APPEND|os.O_CREATE|os.O_WRONLY, 0644)
+	if err != nil {
+		return
+	}
+	f.Write(append(b, '\n'))
+	f.Close()
+}
+
+func Gate(point string) {
+	dir := os.Getenv("YARDL_VERIF_GATE_DIR")
+	if dir == "" {
+		return
+	}
+	mu.Lock()
+	arrived[point]++
+	n := arrived[point]
+	mu.Unlock()
+	os.WriteFile(filepath.Join(dir, fmt.Sprintf("%s.%d.arrived", point, n)), nil, 0644)
+	release := filepath.Join(dir, fmt.Sprintf("%s.%d.go", point, n))
+	pass := filepath.Join(dir, point+".pass")
+	deadline := time.Now().Add(120 * time.Second)
+	for time.Now().Before(deadline) {
+		if _, err := os.Stat(release); err == nil {
+			return
+		}
+		if _, err := os.Stat(pass); err == nil {
+			return
+		}
+		time.Sleep(time.Millisecond)
+	}
+}
